@@ -64,6 +64,40 @@ def replay_case(case):
         bad.append(("C19.grid-and-values", dict(rank=1, **where0), [cc["m"] for cc in case["cands"]], [np.asarray(dom).tolist(), [np.asarray(a).tolist() for a in arrs]]))
         return bad
     exp = [np.array([fr(v) for v in a]) for a in c["arrs"]]
+    # the same domains in other units / number types: integer arrays (units of 1/DX) and decimal units (x 0.1, 0.7:
+    # not representable in binary).  The grid is equivariant, the interpolated arrays are unchanged, and the grid starts
+    # and ends EXACTLY at the overlap (largest first / smallest last sample of the inputs).
+    for uname, mk in (("int", lambda d: np.array(d, int)), ("x0.1", lambda d: np.array(d, float) * 0.1), ("x0.7", lambda d: np.array(d, float) * 0.7)):
+        try:
+            du = [mk(d) for d in case["ds"]]
+            scale = {"int": float(case["DX"]), "x0.1": 0.1 * case["DX"], "x0.7": 0.7 * case["DX"]}[uname]
+            domu, arru = dreye.equalize_domains([d.copy() for d in du], [y.copy() for y in ys])
+            domu = np.asarray(domu, float)
+            lo = max(float(np.min(d)) for d in du)
+            hi = min(float(np.max(d)) for d in du)
+            wu = dict(units=uname, **where0)
+            ok = False
+            for cc in case["cands"]:
+                g = np.array([fr(v) for v in cc["grid"]]) / case["DX"] * scale
+                if len(g) != len(domu) or np.max(np.abs(g - domu)) > 1e-9 * (1 + np.max(np.abs(g))):
+                    continue
+                es = [np.array([fr(v) for v in e]) for e in cc["arrs"]]
+                if all(np.asarray(a).shape == e.shape and np.max(np.abs(np.asarray(a, float) - e)) <= 1e-8 * (1 + np.max(np.abs(e))) for a, e in zip(arru, es)):
+                    ok = True
+            if not ok:
+                bad.append(("C19.grid-and-values", dict(rank=1, **wu), [cc["m"] for cc in case["cands"]], [domu.tolist(), [np.asarray(a).tolist() for a in arru]]))
+            elif domu[0] != lo or domu[-1] != hi:
+                bad.append(("C19.exact-overlap", wu, [lo, hi], [float(domu[0]), float(domu[-1])]))
+        except ValueError as ex:
+            # overlap exactly one coarsest step long: in decimal units the code's float comparison "overlap shorter
+            # than the step" can go either way under round-off; the property is silent about this boundary
+            from fractions import Fraction
+            step = max(Fraction(max(d) - min(d), len(d) - 1) for d in case["ds"])
+            over = min(max(d) for d in case["ds"]) - max(min(d) for d in case["ds"])
+            if not (uname != "int" and over == step):
+                bad.append(("C19.no-error", dict(exc="ValueError", units=uname, **where0), None, repr(ex)[:200]))
+        except Exception as ex:
+            bad.append(("C19.no-error", dict(exc=type(ex).__name__, units=uname, **where0), None, repr(ex)[:200]))
     # higher ranks / axes / stacking
     mult2 = np.array([1.0, -2.0, 0.5])
     try:
